@@ -148,6 +148,7 @@ def run(ctx, chk):
            f"sites: {sorted(n_sites)}", "nasim/envs/network.py")
     chk.floor("C07.one-draw", len(n_sites), 1, "draw sites")
     check_result_sites(ctx, chk)
+    check_prob_routing(ctx, chk)
     check_prob_domain(ctx, chk)
     chk.assume("np.random.rand() is uniform on [0,1) (numpy trusted); `>` vs `>=` differ only on "
                "the measure-zero draw == prob")
@@ -182,6 +183,38 @@ def check_result_sites(ctx, chk):
         chk.ob("C07.flags", f"{fn}: ActionResult(success={s}, errors={errs or 'none'})", ok,
                "" if ok else "success together with an error flag, or more than one error flag",
                loc, nontrivial=False)
+
+
+def check_prob_routing(ctx, chk):
+    """every action class hands its `prob` (and cost, target, req_access) constructor argument to
+    the attribute of the same name - the stated probability is the one the draw is compared with"""
+    from sa.interp import Interp
+    from sa.canon import Canon
+    n = 0
+    for K in ctx.action_classes:
+        if K == "NoOp":
+            continue
+        ci = ctx.repo.cls("nasim.envs.action", K)
+        init = ci.find_method("__init__")
+        if init is None:
+            continue
+        ip = Interp(ctx.repo, ctx.types)
+        obj = ("obj", K, "X")
+        s = ip.run(init, {init.params[0]: obj})
+        cn = Canon(ip, ctx.layout)
+        stores = {}
+        for ev in s.events:
+            if ev.kind == "store" and ev.data["target"] == "attr" and ev.data["base"] == obj:
+                stores[ev.data["name"]] = cn.show(ev.data["value"])
+        for a in ("prob", "cost", "target", "req_access"):
+            if a not in init.params and a != "prob":
+                continue
+            n += 1
+            ok = stores.get(a) == a
+            chk.ob("C07.prob-routing", f"{K}(…, {a}=x).{a} is x", ok,
+                   f"self.{a} = {stores.get(a)}", f"{ci.module.path}:{init.node.lineno}",
+                   nontrivial=(a == "prob"))
+    chk.floor("C07.prob-routing", n, 12, "constructor-argument routings")
 
 
 def check_prob_domain(ctx, chk):
